@@ -100,7 +100,7 @@ Next == /\ case = None
         /\ UNCHANGED shard
 
 Emit == Serialize(ToJson([kind |-> "parse", text |-> case'.text, claim |-> case'.claim, line |-> case'.line,
-                          workers |-> <<2, 3>>]) \o "\n", Out,
+                          workers |-> <<2, 3>>, channels |-> TRUE]) \o "\n", Out,
                   [format |-> "TXT", charset |-> "UTF-8",
                    openOptions |-> <<"WRITE", "CREATE", "APPEND">>]).exitValue = 0
 
